@@ -533,7 +533,7 @@ func runB(root, id string, eb *engineB) int {
 		// vacuity guard: only when the requested bound was completed (a run cut
 		// short by its deadline on a loaded machine reports exhaustive:false
 		// instead of failing)
-		if m.CompletedBound >= bound && len(m.Violations) == 0 {
+		if (m.Exhaustive || m.CompletedBound >= bound) && len(m.Violations) == 0 {
 			for _, f := range sc.MustFlag {
 				if m.Flags[f] == 0 {
 					// The predicates are calibrated on the tree the harness was
